@@ -17,7 +17,7 @@ RULE = ('designs of strata S1, S1x, S2, S3, S4, S5, S6 (quick: stratified core +
         'non-trivial = >= 2 valid sequences.')
 ASSUMPTIONS = ['reference model vt/ref.py (documented semantics; readings where under-specified)']
 BUDGET_S = {'quick': 60, 'thorough': 300}
-STRATA = ['S1', 'S1L', 'S1p', 'S1x', 'S2', 'S2s', 'S3', 'S4', 'S5', 'S6']
+STRATA = ['S1', 'S1L', 'S1n', 'S1p', 'S1x', 'S2', 'S2s', 'S3', 'S4', 'S5', 'S6']
 QUICK_CAPS = dsw.QUICK_CAPS_BIG
 PK_CAP = {'quick': 3000, 'thorough': 30000}
 
